@@ -178,11 +178,11 @@ EncodeOK(it, pos, lbls) ==
     [] it.k = "jal" -> LET v == IF it.f = "lo" THEN Lo(Limbs(off)[1], Limbs(off)[2]) ELSE off IN v % 2 = 0 /\ Between(v, -1048576, 1048575)
     [] it.k = "cj" -> off % 2 = 0 /\ Between(off, -2048, 2047)
     [] it.k = "auipcabs" -> Between(Hi(Limbs(it.n - pos)[1], Limbs(it.n - pos)[2]), -524288, 524287)
-    [] it.k = "jalrpabs" -> LET v == PairLo(it.n - PairPos(pos)) IN Between(v, -2048, 2047)
+    [] it.k = "jalrpabs" -> LET v == PairLo(it.n - PairPos(pos)) IN v % 2 = 0 /\ Between(v, -2048, 2047)   \* (the code refuses an odd jalr immediate)
     [] it.k = "brabs" -> (it.n - pos) % 2 = 0 /\ Between(it.n - pos, -4096, 4095)
     [] it.k = "jalabs" -> (it.n - pos) % 2 = 0 /\ Between(it.n - pos, -1048576, 1048575)
     [] it.k = "auipc" -> Between(Hi(Limbs(off)[1], Limbs(off)[2]), -524288, 524287)
-    [] it.k = "jalrp" -> LET v == PairLo(lbls[it.t] - PairPos(pos)) IN Between(v, -2048, 2047)
+    [] it.k = "jalrp" -> LET v == PairLo(lbls[it.t] - PairPos(pos)) IN v % 2 = 0 /\ Between(v, -2048, 2047)
     [] it.k = "imml" -> LET v == FinalVal(it, pos, lbls) IN
                         IF it.m \in UType THEN Between(v, -524288, 1048575) ELSE Fits12(v)
     [] it.k = "imml2" -> Fits12(FinalVal(it, PairPos(pos), lbls))
